@@ -969,7 +969,8 @@ func conflictEdge(fn *ssa.Function, call ssa.CallInstruction, r ssa.Instruction)
 }
 
 func C05(c *Ctx) {
-	c.Note("all interleavings; WaterMark window rebuild race; repeatable reads as a history property; iterator vs point-read agreement (C06)")
+	c.Note("all interleavings; repeatable reads as a history property; iterator vs point-read agreement (C06)")
+	watermarkSlotExclusionGroup(c, "K2.watermark-slot-updates-exclude-rebuild")
 	const r1 = "K4.begin-in-allocation-critical-section"
 	c.Rule(r1, "txnMark.Begin(ts) executes under oracle.Mutex in the same critical section as nextTxnTs.Add (no unlock between), with the allocated ts as argument, on every non-conflict path")
 	oracleCritical(c, r1, []string{"begin", "alloc"})
